@@ -1,4 +1,5 @@
 import PytezosModel.Proofs.C11Comb
+import PytezosModel.Proofs.C11Clock
 /-! C11 — typed values round-trip through readable / optimized / legacy-optimized Micheline.
 
 `Impl.Value.toMich env mode lz v` mirrors `v.to_micheline_value(mode, lazy_diff = lz)`, `Impl.Value.ofMich env τ m`
@@ -7,6 +8,12 @@ from the source now.  `env : Env` carries what other properties / libraries own,
 `env.Lawful`: base58 text and optimized bytes of structured domain values (C09 / C10), RFC 3339 formatting and
 parsing on 0001-01-01 … 9999-12-31 (`datetime`, `strict_rfc3339`), `check_constraints` (C03's order) and the
 normalisation of lambda bodies by `Micheline.match`.
+
+The RFC 3339 part is no longer only a hypothesis: `Civil.fmtTimestamp` / `Civil.parseTimestamp`
+(`Michelson/CivilDate.lean`) mirror `format_timestamp` and `strict_rfc3339.rfc3339_to_timestamp` over an executable
+proleptic-Gregorian date algorithm, and the law is PROVED for them for every `t` of the range (section "the concrete
+clock" below: `clock_parse_fmt`, `clock_days_civil_days`, `clock_civil_days_civil`, `rfc3339_law_concrete`,
+`timestamp_roundtrip_concrete`, `ofMich_toMich_concrete`).  The abstract statements are kept.
 
 Full statement (properties.jsonl): for every type and value, rendering in any of the three modes and parsing back at
 the same type yields an equal value, including every timestamp (outside years 1000–9999 too; Tezos renders those as
@@ -104,6 +111,102 @@ theorem bigmap_literal_default_raises (env : Env) (mode : Mode) (kvs : List (Val
     toMich env mode (some false) (.bigMap none kvs) = .error .noId := by
   simp [toMich, source_ok, raises, bigMapLazy]
 
+/-! ### the concrete clock: the RFC 3339 contract as a theorem -/
+
+/-- **days → date → days**, every integer day number (no bound) -/
+theorem clock_days_civil_days (z : Int) :
+    Civil.daysFromCivil (Civil.civilFromDays z).1 (Civil.civilFromDays z).2.1 (Civil.civilFromDays z).2.2 = z :=
+  Civil.daysFromCivil_civilFromDays z
+
+/-- the date computed for a day number is a date of the proleptic Gregorian calendar
+(`1 ≤ m ≤ 12`, `1 ≤ d ≤ monthLen y m` with the 4 / 100 / 400 leap rule) -/
+theorem clock_civil_valid (z : Int) :
+    Civil.validDate (Civil.civilFromDays z).1 (Civil.civilFromDays z).2.1 (Civil.civilFromDays z).2.2 :=
+  Civil.civilFromDays_valid z
+
+/-- **date → days → date**, every date of the calendar in any year (no bound) -/
+theorem clock_civil_days_civil (y m d : Int) (h : Civil.validDate y m d) :
+    Civil.civilFromDays (Civil.daysFromCivil y m d) = (y, m, d) :=
+  Civil.civilFromDays_daysFromCivil y m d h
+
+/-- the supported instants are exactly the years 1 … 9999 -/
+theorem clock_year_range (t : Int) (h0 : rfcLo ≤ t) (h1 : t ≤ rfcHi) :
+    1 ≤ (Civil.civilFromDays (t / 86400)).1 ∧ (Civil.civilFromDays (t / 86400)).1 ≤ 9999 :=
+  Civil.civilFromDays_year_range _ (by unfold Civil.dayMin; unfold rfcLo at h0; omega)
+    (by unfold Civil.dayMax; unfold rfcHi at h1; omega)
+
+/-- **headline**: the mirror of `strict_rfc3339.rfc3339_to_timestamp` applied to the mirror of `format_timestamp`
+gives the instant back, for EVERY `t` with 0001-01-01T00:00:00Z ≤ t ≤ 9999-12-31T23:59:59Z (no other bound) -/
+theorem clock_parse_fmt (t : Int) (h0 : rfcLo ≤ t) (h1 : t ≤ rfcHi) :
+    ∃ s, Civil.fmtTimestamp true t = some s ∧ Civil.parseTimestamp s = some t :=
+  Civil.parse_fmt t h0 h1
+
+/-- … and outside that range `format_timestamp` raises (the error branch, not totalised away) -/
+theorem clock_fmt_raises_outside (padded : Bool) (t : Int) :
+    Civil.fmtTimestamp padded t = none ↔ t < rfcLo ∨ rfcHi < t :=
+  Civil.fmtTimestamp_eq_none_iff padded t
+
+/-- the `ts_rt` component of `Env.Lawful` for the driver's environment — a theorem, no hypothesis -/
+theorem rfc3339_law_concrete (t : Int) (h0 : rfcLo ≤ t) (h1 : t ≤ rfcHi) :
+    Inst.env.parseTs (Inst.env.fmtTs t) = some t :=
+  Inst.clock_rt t h0 h1
+
+/-- **timestamps, concretely**: every `t : Int`, every mode, any environment carrying the concrete clock (in
+particular the driver's, `Inst.env`) — no RFC 3339 hypothesis, no `Lawful` hypothesis at all.  In readable mode the
+rendering is the 20-character text `YYYY-MM-DDTHH:MM:SSZ` inside the range and the integer outside (as in Tezos) -/
+theorem timestamp_roundtrip_concrete (env : Env) (t : Int) (a : Annot) (mode : Mode) (lz : Option Bool) :
+    ∃ m, toMich (Inst.withCivilClock env) mode lz (.timestamp t) = .ok m ∧
+      ofMich (Inst.withCivilClock env) (.leaf .timestamp a) m = .ok (.timestamp t) ∧
+      (mode = .readable →
+        (rfcLo ≤ t ∧ t ≤ rfcHi → ∃ cs, Civil.fmtTimestamp true t = some cs ∧ cs.length = 20 ∧ m = .str (String.ofList cs)) ∧
+        (t < rfcLo ∨ rfcHi < t → m = .int t)) ∧
+      (mode ≠ .readable → m = .int t) := by
+  by_cases hm : mode = .readable
+  · by_cases hr : rfcLo ≤ t ∧ t ≤ rfcHi
+    · have hg : inGuard t = true := by
+        simp only [inGuard, Generated.C11.tsGuard, rfcLo, rfcHi] at *
+        simp; omega
+      obtain ⟨cs, hcs, _⟩ := Civil.parse_fmt t hr.1 hr.2
+      refine ⟨.str (Inst.fmtTs t), ?_, ?_, ?_, ?_⟩
+      · simp [toMich, source_ok, raises, render, tsToMich, hg, hr.1, hr.2, hm, Inst.withCivilClock]
+      · simp [ofMich, source_ok, ofMichCore, leafOfMich, lit_ts_str, Inst.withCivilClock, Inst.clock_rt t hr.1 hr.2]
+      · intro _
+        refine ⟨fun _ => ⟨cs, hcs, Civil.fmtTimestamp_length t cs hcs, by rw [Inst.fmtTs_eq t cs hcs]⟩, ?_⟩
+        intro h; omega
+      · intro h; exact absurd hm h
+    · have hg : inGuard t = false := by
+        simp only [inGuard, Generated.C11.tsGuard, rfcLo, rfcHi] at *
+        simp; omega
+      refine ⟨.int t, ?_, ?_, ?_, ?_⟩
+      · simp [toMich, source_ok, raises, render, tsToMich, hg, hm]
+      · simp [ofMich, source_ok, ofMichCore, leafOfMich, lit_ts_int]
+      · intro _; exact ⟨fun h => absurd h hr, fun _ => rfl⟩
+      · intro _; rfl
+  · refine ⟨.int t, ?_, ?_, ?_, ?_⟩
+    · simp [toMich, source_ok, raises, render, tsToMich, hm]
+    · simp [ofMich, source_ok, ofMichCore, leafOfMich, lit_ts_int]
+    · intro h; exact absurd h hm
+    · intro _; rfl
+
+/-- `timestamp_roundtrip_concrete` for the environment the correspondence runs (`lean/Driver/C11.lean`) -/
+theorem timestamp_roundtrip_driver (t : Int) (a : Annot) (mode : Mode) (lz : Option Bool) :
+    ∃ m, toMich Inst.env mode lz (.timestamp t) = .ok m ∧ ofMich Inst.env (.leaf .timestamp a) m = .ok (.timestamp t) := by
+  obtain ⟨m, h1, h2, _⟩ := timestamp_roundtrip_concrete Inst.env t a mode lz
+  exact ⟨m, h1, h2⟩
+
+/-- **`ofMich_toMich` with the concrete clock**: all types, all values, each mode, each `lazy_diff`; the hypothesis is
+`env.LawfulCodecs` — base58 text / optimized bytes (C09, C10) and lambda normalisation only, NO RFC 3339 contract -/
+theorem ofMich_toMich_concrete (env : Env) (hc : env.LawfulCodecs) (τ : Ty) (v : Val) (mode : Mode) (lz : Option Bool)
+    (hty : hasTy (Inst.withCivilClock env) τ v = true) (hf : faithful mode lz τ v = true) :
+    ∃ m, toMich (Inst.withCivilClock env) mode lz v = .ok m ∧ ofMich (Inst.withCivilClock env) τ m = .ok v :=
+  ofMich_toMich _ (Inst.withCivilClock_lawful env hc) τ v mode lz hty hf
+
+/-- … specialised to the driver's environment -/
+theorem ofMich_toMich_driver (hc : Inst.env.LawfulCodecs) (τ : Ty) (v : Val) (mode : Mode) (lz : Option Bool)
+    (hty : hasTy Inst.env τ v = true) (hf : faithful mode lz τ v = true) :
+    ∃ m, toMich Inst.env mode lz v = .ok m ∧ ofMich Inst.env τ m = .ok v :=
+  ofMich_toMich_concrete Inst.env hc τ v mode lz hty hf
+
 /-! ### non-vacuity -/
 
 /-- a lawful environment exists (toy codecs; the real ones are the subject of C09 / C10 / `datetime`) -/
@@ -142,5 +245,37 @@ example (env : Env) (hl : env.Lawful) (mode : Mode) :
 
 example : ∃ m, toMich toyEnv .readable none (.timestamp (-62135596801)) = .ok m ∧ m.beq (.int (-62135596801)) = true :=
   ⟨_, timestamp_int_outside toyEnv _ none (by simp [rfcLo]), by decide⟩
+
+/-- the concrete clock on boundary instants (kernel-evaluated): first and last supported second, the last second of
+a leap-century February, the second before the epoch -/
+example : Civil.fmtTimestamp true (-62135596800) = some "0001-01-01T00:00:00Z".toList ∧
+    Civil.fmtTimestamp true 253402300799 = some "9999-12-31T23:59:59Z".toList ∧
+    Civil.fmtTimestamp true 951868799 = some "2000-02-29T23:59:59Z".toList ∧
+    Civil.fmtTimestamp true (-2203891201) = some "1900-02-28T23:59:59Z".toList ∧
+    Civil.fmtTimestamp true (-1) = some "1969-12-31T23:59:59Z".toList ∧
+    Civil.fmtTimestamp true (-62135596801) = none ∧ Civil.fmtTimestamp true 253402300800 = none := by decide
+
+example : Civil.parseTimestamp "1969-12-31T23:59:59Z".toList = some (-1) ∧
+    Civil.parseTimestamp "2000-02-29T00:00:00+01:00".toList = some 951778800 ∧
+    Civil.parseTimestamp "1900-02-29T00:00:00Z".toList = none ∧
+    Civil.parseTimestamp "0000-12-31T23:59:59Z".toList = none ∧
+    Civil.parseTimestamp "1970-01-01t00:00:00z".toList = none ∧
+    Civil.parseTimestamp "1969-12-31T23:59:59.5Z".toList = some 0 ∧
+    Civil.parseTimestamp "1970-01-01T00:00:00Z\n".toList = some 0 := by decide
+
+/-- the codec-only hypothesis is satisfiable, and the concrete theorem applies to a value with timestamps on both
+sides of both range ends -/
+theorem toyEnv_lawfulCodecs : toyEnv.LawfulCodecs where
+  text_rt := toyEnv_lawful.text_rt
+  bin_rt := toyEnv_lawful.bin_rt
+  lambda_rt := toyEnv_lawful.lambda_rt
+
+example (mode : Mode) :
+    let τ : Ty := .list (.leaf .timestamp {}) {}
+    let v : Val := .list [.timestamp (-62135596801), .timestamp (-62135596800), .timestamp (-1), .timestamp 253402300799,
+      .timestamp 253402300800]
+    ∃ m, toMich (Inst.withCivilClock toyEnv) mode none v = .ok m ∧ ofMich (Inst.withCivilClock toyEnv) τ m = .ok v := by
+  intro τ v
+  exact ofMich_toMich_concrete toyEnv toyEnv_lawfulCodecs τ v mode none (by simp [τ, v, hasTy]) (by simp [τ, v, faithful])
 
 end C11
